@@ -1,6 +1,7 @@
 """C01 — reads return exactly what the accepted writes imply (structural clauses)."""
-from ..ir import callee, short, walk, AnchorMissing
+from ..ir import callee, short, walk, ctor_name, pat_variants, AnchorMissing
 from ..trace import Tracer, ok_exits, err_exits, base
+from ..prov import Bindings
 from .common import *
 from .corefx import core_paths, mutation_effective, failing_event, WRITE_FNS, fallibility
 
@@ -213,4 +214,102 @@ def rule_e(prog, rep):
     rep.floor('C01.e', n, 4, 'pruning traversals')
 
 
-RULES = [('C01.a', rule_a), ('C01.b', rule_b), ('C01.c', rule_c), ('C01.e', rule_e)]
+def rule_f(prog, rep):
+    rep.rule('C01.f', 'T7/T4', 'the store sees the request key: Worterbuch::{get,cget,set,cset,delete,publish,lock,acquire_lock,'
+             'release_lock} parse exactly the request key with parse_segments and hand that path to the store call; pget / '
+             'internal_pdelete / pls parse the request pattern with KeySegment::parse; get and cget map Some -> Ok(value) and '
+             'None -> Err(NoSuchValue(key)); Store::get / cget read the node reached by get_node(path); get_node descends with '
+             'get_child(elem) for every element')
+    crate = prog.crate(WB)
+    table = {'get': ('get', 'key'), 'cget': ('cget', 'key'), 'set': ('insert_plain', 'key'), 'cset': ('insert_cas', 'key'),
+             'delete': ('delete', 'key'), 'lock': ('lock', 'key'), 'acquire_lock': ('acquire_lock', 'key'), 'release_lock': ('unlock', 'key')}
+    n = 0
+    for m, (sfn, param) in table.items():
+        f = crate.fn(f'{CORE}::{m}')
+        b = Bindings(crate, f)
+        ps = crate.calls(f, lambda c: short(c) == 'parse_segments')
+        sc = crate.calls(f, lambda c: c == f'{STORE}::{sfn}')
+        n += 1
+        problems = []
+        if len(ps) != 1 or b.origins(ps[0][0]['args'][0]) != {f'param({param})'}:
+            problems.append('parse_segments is not applied to the request key')
+        if len(sc) != 1:
+            problems.append(f'{len(sc)} calls of Store::{sfn}')
+        else:
+            po = set()
+            for a in sc[0][0]['args'][1:]:
+                o = b.origins(a)
+                if any('parse_segments' in x for x in o):
+                    po = o
+            if not po:
+                problems.append(f'Store::{sfn} is not called with the parsed request key')
+        if m in ('set', 'cset'):
+            vo = b.origins(sc[0][0]['args'][2]) if sc else set()
+            if vo != {'param(value)'}:
+                problems.append(f'stored value <- {sorted(vo)}')
+            if m == 'cset' and sc and b.origins(sc[0][0]['args'][3]) != {'param(version)'}:
+                problems.append('version operand is not the request version')
+            if sc and b.origins(sc[0][0]['args'][-1]) != {'param(force)'}:
+                problems.append('force operand is not passed on')
+        if problems:
+            rep.violation('C01.f', f'Worterbuch::{m}', f.loc, '; '.join(problems), key=f'C01.f/{m}/' + '|'.join(problems))
+        else:
+            rep.ok('C01.f', f'Worterbuch::{m}', f.loc, f'Store::{sfn}(parse_segments({param}), ..)')
+    for m, sfn in (('pget', 'get_matches'), ('internal_pdelete', 'delete_matches'), ('pls_path', 'pls')):
+        f = crate.fn(f'{CORE}::{m}')
+        b = Bindings(crate, f)
+        sc = crate.calls(f, lambda c: c == f'{STORE}::{sfn}')
+        n += 1
+        o = b.origins(sc[0][0]['args'][1]) if len(sc) == 1 else set()
+        good = len(sc) == 1 and (any('KeySegment::parse' in x for x in o) or o == {'param(path)'})
+        if m != 'pls_path':
+            kp = crate.calls(f, lambda c: c.endswith('KeySegment::parse'))
+            good = good and len(kp) == 1 and b.origins(kp[0][0]['args'][0]) == {'param(pattern)'}
+        if good:
+            rep.ok('C01.f', f'Worterbuch::{m}', f.loc, f'Store::{sfn}(KeySegment::parse(pattern))')
+        else:
+            rep.violation('C01.f', f'Worterbuch::{m}', f.loc, f'the store is not queried with the parsed request pattern ({sorted(o)})',
+                          key=f'C01.f/{m}/pattern')
+    rep.floor('C01.f', n, 11, 'request functions')
+    for m in ('get', 'cget'):
+        f = crate.fn(f'{CORE}::{m}')
+        b = Bindings(crate, f)
+        ms = [nd for nd, a in crate.walk_fn(f) if nd.get('k') == 'match' and 'Option' in str(nd.get('scrut_ty'))]
+        good = False
+        if len(ms) == 1:
+            arms = {tuple(sorted(short(v) for v in pat_variants(a['pat']))): a for a in ms[0]['arms']}
+            some, none = arms.get(('Some',)), arms.get(('None',))
+            if some and none:
+                ok_some = any(x.get('k') == 'call' and short(callee(x)) == 'Ok' for x, _ in walk(some['body'])) and \
+                    not any(ctor_name(x) and 'WorterbuchError' in ctor_name(x) for x, _ in walk(some['body']))
+                ne = [x for x, _ in walk(none['body']) if ctor_name(x) and 'WorterbuchError::' in ctor_name(x)]
+                ok_none = len(ne) == 1 and short(ctor_name(ne[0])) == 'NoSuchValue' and any('param(key)' in o for o in b.origins(ne[0]['args'][0]))
+                good = ok_some and ok_none
+        if good:
+            rep.ok('C01.f', f'Worterbuch::{m}:mapping', f.loc, 'Some -> Ok(value); None -> Err(NoSuchValue(key))')
+        else:
+            rep.violation('C01.f', f'Worterbuch::{m}:mapping', f.loc, 'the Option of the store is not mapped to Ok / NoSuchValue(key)',
+                          key=f'C01.f/{m}/mapping')
+    g = crate.fn(f'{STORE}::get_node')
+    gb = Bindings(crate, g)
+    loops = [nd for nd, a in crate.walk_fn(g) if nd.get('k') == 'for']
+    gc = [nd for nd, a in crate.walk_fn(g) if nd.get('k') == 'call' and short(callee(nd)) == 'get_child']
+    good = len(loops) == 1 and gb.origins(loops[0]['iter']) == {'param(path)'} and len(gc) == 1 and \
+        all('param(path)[*]' in x for x in gb.origins(gc[0]['args'][1])) and \
+        any(nd.get('k') == 'try' for nd, a in crate.walk_fn(g))
+    if good:
+        rep.ok('C01.f', 'Store::get_node', g.loc, 'descends with get_child(elem)? for every element of the path, from self.data')
+    else:
+        rep.violation('C01.f', 'Store::get_node', g.loc, 'the lookup does not follow every path element', key='C01.f/get_node')
+    for m in ('get', 'cget'):
+        f = crate.fn(f'{STORE}::{m}')
+        fb = Bindings(crate, f)
+        gn = crate.calls(f, lambda c: c == f'{STORE}::get_node')
+        if len(gn) == 1 and fb.origins(gn[0][0]['args'][1]) == {'param(path)'} and \
+                any(short(callee(nd)) == 'value' for nd, a in crate.calls(f)):
+            rep.ok('C01.f', f'Store::{m}', f.loc, 'get_node(path)?.value()')
+        else:
+            rep.violation('C01.f', f'Store::{m}', f.loc, 'does not read the value of the node at `path`', key=f'C01.f/Store::{m}')
+
+
+RULES = [('C01.f', rule_f), ('C01.a', rule_a), ('C01.b', rule_b), ('C01.c', rule_c), ('C01.e', rule_e)]
